@@ -168,7 +168,7 @@ func parseVersRange(r string) (scheme string, ops, vs []string, ok bool) {
 
 func c04MaxN(tier string) int {
 	if tier == "thorough" {
-		return 6
+		return 8
 	}
 	return 4
 }
@@ -283,7 +283,7 @@ func init() {
 				"max_constraints":               c04MaxN(tier),
 			}
 		},
-		Rule:        "for each of the 11 schemes: every comparator sequence of length 1..n (quick 4, thorough 6) over {< <= > >= = !=} whose bounds alternate as the VERS spec requires, instantiated with increasing versions from 2-3 pools per scheme (plain releases; pre-releases and scheme-specific spellings), evaluated on every pool member up to just above the last bound (each bound itself, a version strictly between each neighbouring pair, one below, one above); plus vers:<scheme>/*. Expected value from the spec's interval semantics over the scheme's own Compare; pypi pre-/dev-release probes are expected excluded unless a constraint names a pre-release. distinct_nontrivial = evaluations whose expected value is true.",
-		Assumptions: []string{"constraint versions are taken from fixed increasing pools (validated against the scheme's Compare on every run), not from all versions", "shapes longer than the tier's n are not explored (the property names 8)"},
+		Rule:        "for each of the 11 schemes: every comparator sequence of length 1..n (quick 4, thorough 8) over {< <= > >= = !=} whose bounds alternate as the VERS spec requires, instantiated with increasing versions from 2-3 pools per scheme (plain releases; pre-releases and scheme-specific spellings), evaluated on every pool member up to just above the last bound (each bound itself, a version strictly between each neighbouring pair, one below, one above); plus vers:<scheme>/*. Expected value from the spec's interval semantics over the scheme's own Compare; pypi pre-/dev-release probes are expected excluded unless a constraint names a pre-release. distinct_nontrivial = evaluations whose expected value is true.",
+		Assumptions: []string{"constraint versions are taken from fixed increasing pools (validated against the scheme's Compare on every run), not from all versions", "quick stops at 4 constraints; thorough reaches the 8 the property names"},
 	})
 }
